@@ -368,6 +368,42 @@ pub fn item_comment_prog(run: &Run, src: &mut Src, depth: usize) -> Option<Prog>
 	Some(Prog { tree: base.tree, text: out, comments, decorated: true, anywhere: false })
 }
 
+/// `//` / `#` comments at the end of a line, after the comma of a non-last member of an array or object that is
+/// otherwise written on one line (the line feed that ends the comment is the only line break near the member)
+pub fn inline_comment_prog(run: &Run, src: &mut Src, depth: usize) -> Option<Prog> {
+	let base = gen_prog(run, src, depth, 0);
+	let toks = c06::lex_tokens(&base.text);
+	let mut out = String::new();
+	let mut stack: Vec<char> = vec![];
+	let mut comments = vec![];
+	for (i, t) in toks.iter().enumerate() {
+		let s = t.1.as_str();
+		match s {
+			"(" | "[" | "{" => stack.push(s.chars().next().unwrap()),
+			")" | "]" | "}" => {
+				stack.pop();
+			}
+			_ => {}
+		}
+		out.push_str(s);
+		let next = toks.get(i + 1).map(|x| x.1.as_str()).unwrap_or("");
+		let member_separator = s == "," && matches!(stack.last(), Some('[') | Some('{')) && !matches!(next, "]" | "}" | "" | "for" | "if");
+		if member_separator && src.chance(1, 3) {
+			let w = format!("c{} note", comments.len() + 1);
+			out.push_str(if src.chance(1, 2) { " // " } else { " # " });
+			out.push_str(&w);
+			out.push('\n');
+			comments.push(w);
+		} else {
+			out.push(' ');
+		}
+	}
+	if comments.is_empty() {
+		return None;
+	}
+	Some(Prog { tree: base.tree, text: out, comments, decorated: true, anywhere: false })
+}
+
 /// payloads of the comments of a text, in order (delimiters stripped, white space collapsed)
 pub fn comment_payloads(text: &str) -> Vec<String> {
 	use jrsonnet_lexer::SyntaxKind::*;
@@ -741,6 +777,10 @@ pub fn run_c19(run: &Run) {
 		Some(p) => preserve_case(run, &p).class("item-comments"),
 		None => CaseOut::discard(String::new(), "no multi-line group to decorate"),
 	});
+	run.explore("inline-comments", n, 10..=250, |src| match inline_comment_prog(run, src, 4) {
+		Some(p) => preserve_case(run, &p).class("inline-comments"),
+		None => CaseOut::discard(String::new(), "no member separator to decorate"),
+	});
 	let n = run.tier.pick(8_000, 80_000);
 	run.explore("evaluated", n, 10..=200, |src| eval_case(run, src));
 	for k in [
@@ -789,6 +829,7 @@ pub fn replay(run: &Run, prop: &str, stage: &str, tape: Option<&[u16]>, v: &serd
 		("C19", "plain", Some(t)) => Some(preserve_case(run, &gen_prog(run, &mut Src::new(t), 4, 0))),
 		("C19", "item-comments", Some(t)) => item_comment_prog(run, &mut Src::new(t), 4).map(|p| preserve_case(run, &p)),
 		("C19", "decorated", Some(t)) => Some(preserve_case(run, &gen_prog(run, &mut Src::new(t), 4, 1))),
+		("C19", "inline-comments", Some(t)) => inline_comment_prog(run, &mut Src::new(t), 4).map(|p| preserve_case(run, &p)),
 		("C19", "evaluated", Some(t)) => Some(eval_case(run, &mut Src::new(t))),
 		("C19", _, _) => {
 			let p = Prog { tree: Ex::Null, text: v["case"].as_str()?.to_owned(), comments: vec![], decorated: true, anywhere: true };
